@@ -198,8 +198,11 @@ theorem C11_lock_facts_single_cas : LA.Gen.LockFacts.closedSingleCasGuardsClear 
 nowhere but in the `Lock(); defer Unlock()` prologue of eventList methods. -/
 theorem C11_lock_facts_no_callout : LA.Gen.LockFacts.noCalloutUnderLock = true := by decide
 
-/-- the model's atomic steps are exactly the locked methods Put, CleanUp, Clear. -/
-theorem C11_lock_facts_methods : LA.Gen.LockFacts.lockedMethods = ["CleanUp", "Clear", "Put"] := by decide
+/-- the model's atomic steps are exactly the eventList methods the Reassembler calls — Put,
+CleanUp, Clear — and each of them runs under the lock from its first statement to its last (it has
+the `Lock(); defer Unlock()` prologue itself, or does nothing but delegate to one method that has). -/
+theorem C11_lock_facts_methods :
+    LA.Gen.LockFacts.entryPoints = ["CleanUp", "Clear", "Put"] ∧ LA.Gen.LockFacts.entryPointsAtomic = true := by decide
 
 theorem C11_lock_facts : LA.Gen.LockFacts.allHold = true := by decide
 
